@@ -344,6 +344,16 @@ def detectXMLEncoding(fp, log=None, includeDefault=True):  # noqa: C901
     """
     if isinstance(fp, str):
         fp = io.StringIO(fp)
+    elif isinstance(fp, bytes):
+        fp = io.BytesIO(fp)
+
+    def read(size):
+        # bytes (byte string or binary file) are looked at as characters
+        # of the same ordinal, as the patterns below are all ASCII
+        data = fp.read(size)
+        if isinstance(data, bytes):
+            data = data.decode('latin-1')
+        return data
 
     # detection using BOM
 
@@ -359,7 +369,7 @@ def detectXMLEncoding(fp, log=None, includeDefault=True):  # noqa: C901
     # go to beginning of file and get the first 4 bytes
     oldFP = fp.tell()
     fp.seek(0)
-    (byte1, byte2, byte3, byte4) = tuple(map(ord, fp.read(4)))
+    (byte1, byte2, byte3, byte4) = tuple(map(ord, read(4)))
 
     # try bom detection using 4 bytes, 3 bytes, or 2 bytes
     bomDetection = bomDict.get((byte1, byte2, byte3, byte4))
@@ -383,7 +393,7 @@ def detectXMLEncoding(fp, log=None, includeDefault=True):  # noqa: C901
 
     # assume xml declaration fits into the first 2 KB (*cough*)
     fp.seek(0)
-    buffer = fp.read(2048)
+    buffer = read(2048)
 
     # set up regular expression
     xmlDeclPattern = r"""
